@@ -3212,16 +3212,21 @@ impl<'a> Visitor<'a, '_, Error> for JSONValidator<'a> {
 
     let error: Option<String> = match value {
       token::Value::INT(v) => match &self.json {
-        Value::Number(n) => match n.as_i64() {
+        // compare in i128: the document may hold any integer from i64::MIN to u64::MAX
+        Value::Number(n) => match n
+          .as_i64()
+          .map(i128::from)
+          .or_else(|| n.as_u64().map(i128::from))
+        {
           Some(i) => match &self.state.ctrl {
-            Some(ControlOperator::NE) | Some(ControlOperator::DEFAULT) if i != *v as i64 => None,
-            Some(ControlOperator::LT) if i < *v as i64 => None,
-            Some(ControlOperator::LE) if i <= *v as i64 => None,
-            Some(ControlOperator::GT) if i > *v as i64 => None,
-            Some(ControlOperator::GE) if i >= *v as i64 => None,
+            Some(ControlOperator::NE) | Some(ControlOperator::DEFAULT) if i != *v as i128 => None,
+            Some(ControlOperator::LT) if i < *v as i128 => None,
+            Some(ControlOperator::LE) if i <= *v as i128 => None,
+            Some(ControlOperator::GT) if i > *v as i128 => None,
+            Some(ControlOperator::GE) if i >= *v as i128 => None,
             #[cfg(feature = "additional-controls")]
             Some(ControlOperator::PLUS) => {
-              if i == *v as i64 {
+              if i == *v as i128 {
                 None
               } else {
                 Some(format!("expected computed .plus value {}, got {}", v, n))
@@ -3229,7 +3234,7 @@ impl<'a> Visitor<'a, '_, Error> for JSONValidator<'a> {
             }
             #[cfg(feature = "additional-controls")]
             None | Some(ControlOperator::FEATURE) => {
-              if i == *v as i64 {
+              if i == *v as i128 {
                 None
               } else {
                 Some(format!("expected value {}, got {}", v, n))
@@ -3237,7 +3242,7 @@ impl<'a> Visitor<'a, '_, Error> for JSONValidator<'a> {
             }
             #[cfg(not(feature = "additional-controls"))]
             None => {
-              if i == *v as i64 {
+              if i == *v as i128 {
                 None
               } else {
                 Some(format!("expected value {}, got {}", v, n))
@@ -3250,25 +3255,30 @@ impl<'a> Visitor<'a, '_, Error> for JSONValidator<'a> {
               n
             )),
           },
-          None => Some(format!("{} cannot be represented as an i64", n)),
+          None => Some(format!("expected integer value {}, got {}", v, n)),
         },
         _ => Some(format!("expected value {}, got {}", v, self.json)),
       },
       token::Value::UINT(v) => match &self.json {
-        Value::Number(n) => match n.as_u64() {
+        // compare in i128: a negative document value is still comparable with an unsigned literal
+        Value::Number(n) => match n
+          .as_i64()
+          .map(i128::from)
+          .or_else(|| n.as_u64().map(i128::from))
+        {
           Some(i) => match &self.state.ctrl {
-            Some(ControlOperator::NE) | Some(ControlOperator::DEFAULT) if i != *v as u64 => None,
-            Some(ControlOperator::LT) if i < *v as u64 => None,
-            Some(ControlOperator::LE) if i <= *v as u64 => None,
-            Some(ControlOperator::GT) if i > *v as u64 => None,
-            Some(ControlOperator::GE) if i >= *v as u64 => None,
+            Some(ControlOperator::NE) | Some(ControlOperator::DEFAULT) if i != *v as i128 => None,
+            Some(ControlOperator::LT) if i < *v as i128 => None,
+            Some(ControlOperator::LE) if i <= *v as i128 => None,
+            Some(ControlOperator::GT) if i > *v as i128 => None,
+            Some(ControlOperator::GE) if i >= *v as i128 => None,
             Some(ControlOperator::SIZE) => match 256u128.checked_pow(*v as u32) {
-              Some(n) if (i as u128) < n => None,
+              Some(n) if i >= 0 && (i as u128) < n => None,
               _ => Some(format!("expected value .size {}, got {}", v, n)),
             },
             #[cfg(feature = "additional-controls")]
             Some(ControlOperator::PLUS) => {
-              if i == *v as u64 {
+              if i == *v as i128 {
                 None
               } else {
                 Some(format!("expected computed .plus value {}, got {}", v, n))
@@ -3276,7 +3286,7 @@ impl<'a> Visitor<'a, '_, Error> for JSONValidator<'a> {
             }
             #[cfg(feature = "additional-controls")]
             None | Some(ControlOperator::FEATURE) => {
-              if i == *v as u64 {
+              if i == *v as i128 {
                 None
               } else {
                 Some(format!("expected value {}, got {}", v, n))
@@ -3284,7 +3294,7 @@ impl<'a> Visitor<'a, '_, Error> for JSONValidator<'a> {
             }
             #[cfg(not(feature = "additional-controls"))]
             None => {
-              if i == *v as u64 {
+              if i == *v as i128 {
                 None
               } else {
                 Some(format!("expected value {}, got {}", v, n))
@@ -3297,7 +3307,7 @@ impl<'a> Visitor<'a, '_, Error> for JSONValidator<'a> {
               n
             )),
           },
-          None => Some(format!("{} cannot be represented as a u64", n)),
+          None => Some(format!("expected integer value {}, got {}", v, n)),
         },
         Value::String(s) => match &self.state.ctrl {
           Some(ControlOperator::SIZE) => {
